@@ -280,10 +280,42 @@ static int count_fds(void) {
     return n - 1; /* the DIR's own fd */
 }
 
+static int count_dir(const char *path) {
+    DIR *d = opendir(path);
+    if (!d) return -1;
+    int n = 0;
+    struct dirent *e;
+    while ((e = readdir(d))) if (e->d_name[0] != '.') n++;
+    closedir(d);
+    return n;
+}
+
+/* number of direct child processes (running or zombie) of this process */
+static int count_children(void) {
+    DIR *d = opendir("/proc/self/task");
+    if (!d) return -1;
+    int n = 0;
+    struct dirent *e;
+    while ((e = readdir(d))) {
+        if (e->d_name[0] == '.') continue;
+        char path[300];
+        snprintf(path, sizeof path, "/proc/self/task/%s/children", e->d_name);
+        FILE *f = fopen(path, "r");
+        if (!f) continue;
+        int pid;
+        while (fscanf(f, "%d", &pid) == 1) n++;
+        fclose(f);
+    }
+    closedir(d);
+    return n;
+}
+
 static Janet v_vm_info(int32_t argc, Janet *argv) {
     (void) argv;
     janet_fixarity(argc, 0);
-    JanetKV *st = janet_struct_begin(12);
+    JanetKV *st = janet_struct_begin(14);
+    janet_struct_put(st, janet_ckeywordv("threads"), janet_wrap_number((double) count_dir("/proc/self/task")));
+    janet_struct_put(st, janet_ckeywordv("children"), janet_wrap_number((double) count_children()));
     janet_struct_put(st, janet_ckeywordv("block-count"), janet_wrap_number((double) janet_vm.block_count));
     janet_struct_put(st, janet_ckeywordv("root-count"), janet_wrap_number((double) janet_vm.root_count));
     janet_struct_put(st, janet_ckeywordv("gc-suspend"), janet_wrap_number((double) janet_vm.gc_suspend));
